@@ -420,3 +420,16 @@ def iterations_on_path(fn, head, p):
                 if any(kind == "call" and obj.callee_name() == "next" for (b2, i2, kind, obj) in fn.defs().get(src, [])):
                     some_blocks.add(arms[1])
     return sum(1 for b in p.blocks if b in some_blocks)
+
+
+def fuse_loop(fn, tb):
+    """head of THE loop of TDigestInner::merge that carries a `Centroid` (the cluster being grown); loops that only build the
+    sort buffer are not it. None when there is not exactly one."""
+    hs = []
+    for h in fn.loop_heads():
+        if any(fn.local_ty(l) == "tdigest::Centroid" and fn.local_name(l) and tb.defined_in_loop(l, h) and tb.loop_update(l, h)[0] == "phi"
+               for l in range(len(fn.locals))):
+            hs.append(h)
+    # nested loops: keep the innermost
+    hs = [h for h in hs if not any(h2 != h and h2 in fn.natural_loop(h) for h2 in hs)]
+    return hs[0] if len(hs) == 1 else None
